@@ -747,6 +747,21 @@ func runC15(c *Ctx) {
 	if nGo != 1 {
 		o.Fail(run.Pos(), "run must be started exactly once by the constructor")
 	}
+	// R9c the bucket is filled only by the filter's own goroutine: a refill from the constructor runs before the
+	// options are applied (default rate and burst instead of the configured ones), one from any other caller is
+	// unordered with the loop's own refills
+	if refill != nil {
+		o9c := c.Obl("R9c", fname(refill), "the refill is called only from the filter's run loop (after the options were applied, by the single goroutine that owns the bucket)", 1)
+		for _, e := range cg.In[refill] {
+			if e.Kind == "ref" {
+				continue
+			}
+			o9c.Site(e.Site.Pos(), "refill called from %s", fname(e.From))
+			if !(e.From == run || isIn(e.From, run)) || e.Kind != "static" {
+				o9c.Fail(e.Site.Pos(), "the bucket is refilled from %s, outside the run loop: tokens are granted with the wrong configuration or unordered with the loop", fname(e.From))
+			}
+		}
+	}
 	// R9 tokens are topped up before an arrival is served: on every path of run from the receipt of a chunk to the
 	// first drain, the elapsed time since the last refill has been compared with the minimum refill interval (a
 	// refill that is only done once the bucket runs short keeps the idle time as credit: after the burst has left, a
@@ -1455,6 +1470,9 @@ func runC14(c *Ctx) {
 		}
 	}
 	for _, stp := range findU(run, func(in ssa.Instruction) bool { return isCall(in, "(*time.Timer).Stop") }) {
+		if _, plain := stp.(*ssa.Call); !plain {
+			continue // a deferred Stop runs when the loop has ended: nothing waits after it
+		}
 		o.Site(stp.Pos(), "timer.Stop()")
 		re := reachEdges(posAfter(stp), func(in ssa.Instruction) bool { return isReset(in) || loopEnd(in) }, infeasible)
 		for in := range re {
@@ -1475,6 +1493,14 @@ func runC14(c *Ctx) {
 	}
 
 	routerDelayRules(c, pc, rpush)
+	// a router that is running forwards what is queued: the forwarding loop looks at the queue before its first wait
+	if st := p.Func("vnet", "Router", "Start"); st != nil {
+		o10 := c.Obl("R10", fname(st), "the router's forwarding loop processes the queue before it waits for the first time (chunks left in the queue by a Stop are forwarded after the next Start without a new arrival)", 1)
+		o10.Site(st.Pos(), "forwarding goroutine of %s", fname(st))
+		if pos, bad := routerLoopWaitsFirst(st, pc, nil); bad {
+			o10.Fail(pos, "the forwarding loop waits before it has looked at the queue: a chunk queued before Start stays there until something else arrives")
+		}
+	}
 	fifoShape(c, "R7")
 }
 
